@@ -321,12 +321,14 @@ StepPing(t) ==
   /\ UNCHANGED <<st, descr, facade, spa, sensor, announced, locBr, connBr, kf, net, nNet, nSusp, nReset, nBg, dying, last, nextEp,
                  nextFac, found, exited>> /\ UNCH_RES
 
-BgEvents == {"RF_ERROR", "TOO_MANY_RF", "RETRY_EXCEEDED", "PACK_REFRESHED"}
+\* the refresh loop reports a failed status-block request as RETRY_EXCEEDED and then goes on to the channel
+\* request, whose failure it reports with the CONNECTION_ flavour of the event (async_spa._refresh_loop)
+BgEvents == {"RF_ERROR", "TOO_MANY_RF", "RETRY_EXCEEDED", "CONN_RETRY_EXCEEDED", "PACK_REFRESHED"}
 StepBg(t) ==
   /\ t \in { <<"BG", e>> : e \in Eps } /\ Head(todo[t]).f = "bgIdle" /\ nBg < MaxBg
   /\ \E ev \in BgEvents :
        /\ (ev = "PACK_REFRESHED") => ((net = "ok" \/ Unreliable) /\ spaConn[t[2]])
-       /\ (ev = "RETRY_EXCEEDED") => (net = "bad" \/ Unreliable)
+       /\ (ev \in {"RETRY_EXCEEDED", "CONN_RETRY_EXCEEDED"}) => (net = "bad" \/ Unreliable)
        /\ Push(t, <<R(ev), F("bgIdle")>>)
   /\ nBg' = nBg + 1 /\ running' = t
   /\ UNCHANGED <<st, descr, facade, spa, sensor, announced, locBr, connBr, kf, net, nNet, nSusp, nReset, alive, dying, last, nextEp,
